@@ -284,3 +284,8 @@ def gen(rng, tier):
         yield c
     for c in heavy[hi:]:
         yield c
+
+
+def translate(repo, lean):
+    """(G) mode boundaries and prefix constants of the SCALE compact and alloy-rlp support code, re-extracted on every run"""
+    return translate_codec_tables(repo, lean)
